@@ -343,7 +343,13 @@ def worker_task(module, tier, name, prefixes, opts):
     t0 = time.time()
     while stack and len(recs) < opts.chunk_paths and time.time() - t0 < opts.chunk_seconds:
         p = stack.pop()
-        rec = run_one(h, p, opts)
+        try:
+            rec = run_one(h, p, opts)
+        except Exception as e:       # a defect of the engine itself: the path is lost, never the whole run
+            core.set_current(None)
+            rec = {"status": "engine_error", "msg": "%s: %s" % (type(e).__name__, str(e)[:200]), "decisions": "".join("1" if d else "0" for d in p),
+                   "pending": [], "obligations": [], "cex": [], "witness": None, "queries": 0, "solver_time": 0.0,
+                   "branch_unknown": 0, "realized": 0, "time": 0.0, "inputs": None, "n_obs": 0, "notes": [], "exc": None, "portfolio": {}}
         stack.extend(rec.pop("pending"))
         recs.append(rec)
     funcs = list(_MON["funcs"].keys())
@@ -393,7 +399,7 @@ class Summary(object):
         self.branch_unknown += rec["branch_unknown"]
         for k, v in rec.get("portfolio", {}).items():
             self.portfolio[k] = self.portfolio.get(k, 0) + v
-        if st == "unsupported":
+        if st in ("unsupported", "engine_error"):
             self.unsupported[rec["msg"]] = self.unsupported.get(rec["msg"], 0) + 1
         for (label, status, t, twin) in rec["obligations"]:
             self.obligations += 1
